@@ -150,6 +150,10 @@ func runC06(c *Ctx) {
 	c06Units(c)
 	c06Lines(c, "C06-R6")
 	c.Rule("C06-R7", "the line table holds the text the YAML decoder saw", 3)
+	defer c06LineTableIsDecoderText(c, "C06-R7")
+	defer c06ContinuationIndent(c, "C06-R4")
+	defer c02WholeLinesR(c, "C06-R7")
+	defer c06RenderedTextIsFileText(c, "C06-R5")
 	if rnl := c.MustFunc("C06-R7", "internal/parser.ContentReader.readNextLine"); rnl != nil {
 		linesPublishedBlanked(c, "C06-R7", rnl)
 		c10ReadConsumes(c, "C06-R7")
@@ -1162,4 +1166,279 @@ func c06OnlyMatchedPositions(c *Ctx) {
 	}
 	c.Check(bad == "" && n >= 1, "C06-R7", "NewPositionRange:literal ranges are single-point fallbacks", fi.Decl.Pos(), itoa(n)+" literal(s), first == last",
 		"NewPositionRange builds a range `"+bad+"` arithmetically instead of by matching characters: for a quoted or escaped scalar the source text is longer than the value, so the range is shifted and too short")
+}
+
+// c06LineTableIsDecoderText: positions are rebuilt by looking yaml's line and
+// column up in a table of source lines. yaml counted those on the text the
+// content reader handed it — after ignore comments blanked parts of it — so the
+// table given to parseGroups / parseNode is the one the reader fills from its
+// buffer once the line is final: no method that can still rewrite the buffer
+// runs after the append in the same function. A second table that records the
+// raw file ("what is really there") and is used for the look-up walks text the
+// decoder never saw: the positions of a value with an excluded line in it no
+// longer spell the value.
+func c06LineTableIsDecoderText(c *Ctx, R string) {
+	parse := c.MustFunc(R, "internal/parser.Parser.Parse")
+	if parse == nil {
+		return
+	}
+	info := parse.Pkg.TypesInfo
+	fields := map[string]bool{}
+	ast.Inspect(parse.Decl.Body, func(nd ast.Node) bool {
+		call, ok := nd.(*ast.CallExpr)
+		if !ok {
+			return true
+		}
+		fn := Callee(info, call)
+		if fn == nil {
+			return true
+		}
+		if q := funcQName(fn); q != "internal/parser.parseGroups" && q != "internal/parser.Parser.parseNode" {
+			return true
+		}
+		for _, a := range call.Args {
+			if sel, isSel := ast.Unparen(a).(*ast.SelectorExpr); isSel && fieldOwner(info, sel) == "internal/parser.ContentReader" {
+				fields[sel.Sel.Name] = true
+			}
+		}
+		return true
+	})
+	if len(fields) == 0 {
+		// a local copy etc.: C19-R2 speaks about that; nothing to decide here
+		c.Ok(R, "Parse:line table is a field of the content reader", parse.Decl.Pos(), "not passed as a field")
+		return
+	}
+	n := 0
+	for _, fi := range c.P.AllFuncs() {
+		if fi.Pkg != parse.Pkg || fi.Decl.Body == nil || c.P.IsTestFile(fi.Decl.Pos()) {
+			continue
+		}
+		ast.Inspect(fi.Decl.Body, func(nd ast.Node) bool {
+			as, ok := nd.(*ast.AssignStmt)
+			if !ok || len(as.Lhs) != 1 || len(as.Rhs) != 1 {
+				return true
+			}
+			sel, isSel := ast.Unparen(as.Lhs[0]).(*ast.SelectorExpr)
+			if !isSel || fieldOwner(info, sel) != "internal/parser.ContentReader" || !fields[sel.Sel.Name] {
+				return true
+			}
+			call, isCall := ast.Unparen(as.Rhs[0]).(*ast.CallExpr)
+			if !isCall || exprStr(call.Fun) != "append" {
+				return true
+			}
+			n++
+			// anything after the append in this function that can still rewrite the buffer?
+			late := ""
+			ast.Inspect(fi.Decl.Body, func(m ast.Node) bool {
+				switch x := m.(type) {
+				case *ast.CallExpr:
+					if x.Pos() <= as.End() {
+						return true
+					}
+					if callee := c.P.FuncOf(Callee(info, x)); callee != nil && callee.Decl.Recv != nil && c06WritesBuf(c.P, callee, 0) {
+						late = exprStr(x.Fun)
+					}
+				case *ast.AssignStmt:
+					if x.Pos() <= as.End() {
+						return true
+					}
+					for _, l := range x.Lhs {
+						root := l
+						if ix, isIx := l.(*ast.IndexExpr); isIx {
+							root = ix.X
+						}
+						if fieldSel(info, root, "internal/parser.ContentReader", "buf") {
+							late = exprStr(l)
+						}
+					}
+				}
+				return true
+			})
+			c.Check(late == "", R, strings.TrimPrefix(fi.Name, "internal/parser.")+":line table "+sel.Sel.Name+" is filled from the final text of the line", as.Pos(), "nothing rewrites the buffer after the append",
+				"the table the positions are looked up in gets the line before `"+late+"` can still blank parts of it: it holds text the YAML decoder never saw, so the positions of a value that contains an excluded line (or follows one) do not spell the value")
+			return true
+		})
+	}
+	c.Check(n >= 1, R, "appends to the line table enumerated", token.NoPos, itoa(n), "nothing appends to the line table handed to the parsers")
+}
+
+// c06WritesBuf: the method (or something it calls on the same receiver type,
+// two levels deep) stores into ContentReader.buf or its elements.
+func c06WritesBuf(p *Prog, fi *FuncInfo, depth int) bool {
+	if fi == nil || fi.Decl.Body == nil || depth > 2 {
+		return false
+	}
+	info := fi.Pkg.TypesInfo
+	found := false
+	ast.Inspect(fi.Decl.Body, func(m ast.Node) bool {
+		switch x := m.(type) {
+		case *ast.AssignStmt:
+			for _, l := range x.Lhs {
+				root := l
+				if ix, isIx := l.(*ast.IndexExpr); isIx {
+					root = ix.X
+				}
+				if fieldSel(info, root, "internal/parser.ContentReader", "buf") {
+					found = true
+				}
+			}
+		case *ast.CallExpr:
+			if callee := p.FuncOf(Callee(info, x)); callee != nil && callee != fi && callee.Decl.Recv != nil && callee.Pkg == fi.Pkg {
+				if c06WritesBuf(p, callee, depth+1) {
+					found = true
+				}
+			}
+		}
+		return true
+	})
+	return found
+}
+
+// c06RenderedTextIsFileText: the reporters draw carets under the file's own
+// text: columns are byte offsets into the lines as they are on disk. The
+// content read for rendering is handed to InjectDiagnostics (and to the plain
+// line printer) as it was read — no tab expansion, trimming or re-encoding in
+// between, or every caret after the rewritten spot is misplaced.
+func c06RenderedTextIsFileText(c *Ctx, R string) {
+	rep := c.P.Pkg("internal/reporter")
+	if rep == nil {
+		return
+	}
+	info := rep.TypesInfo
+	n := 0
+	for _, fi := range c.P.AllFuncs() {
+		if fi.Pkg != rep || fi.Decl.Body == nil || c.P.IsTestFile(fi.Decl.Pos()) {
+			continue
+		}
+		// variables that hold file content: assigned from readFile(...)
+		content := map[types.Object]bool{}
+		ast.Inspect(fi.Decl.Body, func(nd ast.Node) bool {
+			if as, ok := nd.(*ast.AssignStmt); ok && len(as.Rhs) == 1 {
+				if call, isCall := as.Rhs[0].(*ast.CallExpr); isCall && isCallTo(info, call, "internal/reporter.readFile") && len(as.Lhs) >= 1 {
+					if o := objOf(info, as.Lhs[0]); o != nil {
+						content[o] = true
+					}
+				}
+			}
+			return true
+		})
+		if len(content) == 0 {
+			continue
+		}
+		seq := 0
+		ast.Inspect(fi.Decl.Body, func(nd ast.Node) bool {
+			as, ok := nd.(*ast.AssignStmt)
+			if !ok {
+				return true
+			}
+			for i, l := range as.Lhs {
+				o := objOf(info, l)
+				if o == nil || !content[o] || i >= len(as.Rhs) && len(as.Rhs) != 1 {
+					continue
+				}
+				r := as.Rhs[0]
+				if i < len(as.Rhs) {
+					r = as.Rhs[i]
+				}
+				n++
+				seq++
+				okStore := false
+				switch x := ast.Unparen(r).(type) {
+				case *ast.CallExpr:
+					okStore = isCallTo(info, x, "internal/reporter.readFile")
+				case *ast.BasicLit:
+					okStore = true // reset to ""
+				case *ast.Ident:
+					okStore = true
+				}
+				c.Check(okStore, R, strings.TrimPrefix(fi.Name, "internal/reporter.")+":file content is rendered as read#"+itoa(seq), as.Pos(), "readFile result or reset",
+					"the text the diagnostics are drawn on is rewritten (`"+exprStr(r)+"`) after it was read: columns are byte offsets into the file's own lines, so every caret behind the rewritten spot points at the wrong characters")
+			}
+			return true
+		})
+	}
+	c.Check(n >= 3, R, "stores to file-content variables in internal/reporter enumerated", token.NoPos, itoa(n), "fewer than 3")
+}
+
+// c06ContinuationIndent: a continuation line of a multi-line value is indented
+// at least ONE column deeper than its key (YAML's rule for a block mapping
+// value), so the column the position look-up starts reading such a line at is
+// at most `key.Column + 1`. A larger offset cuts off the first character of a
+// line indented by the minimum, and the look-up then goes hunting for it in
+// the lines — and rules — below (found F44).
+func c06ContinuationIndent(c *Ctx, R string) {
+	n := 0
+	for _, name := range []string{"internal/parser.parseRule", "internal/parser.newYamlMap"} {
+		fi := c.MustFunc(R, name)
+		if fi == nil {
+			continue
+		}
+		info := fi.Pkg.TypesInfo
+		seq := 0
+		ast.Inspect(fi.Decl.Body, func(nd ast.Node) bool {
+			call, ok := nd.(*ast.CallExpr)
+			if !ok {
+				return true
+			}
+			fn := Callee(info, call)
+			if fn == nil {
+				return true
+			}
+			q := funcQName(fn)
+			if q != "internal/parser.newYamlNode" && q != "internal/parser.newPromQLExpr" {
+				return true
+			}
+			sig := fn.Type().(*types.Signature)
+			mi := -1
+			for i := 0; i < sig.Params().Len(); i++ {
+				if sig.Params().At(i).Name() == "minColumn" {
+					mi = i
+				}
+			}
+			if mi < 0 {
+				mi = sig.Params().Len() - 1 // the last int parameter
+			}
+			if mi >= len(call.Args) {
+				return true
+			}
+			arg := ast.Unparen(call.Args[mi])
+			// map keys are single tokens on one line: their minimum column is never used
+			isKey := false
+			ast.Inspect(fi.Decl.Body, func(m ast.Node) bool {
+				if kv, isKV := m.(*ast.KeyValueExpr); isKV && ast.Unparen(kv.Value) == ast.Expr(call) {
+					if id, isID := kv.Key.(*ast.Ident); isID && id.Name == "Key" {
+						isKey = true
+					}
+				}
+				return true
+			})
+			if isKey {
+				return true
+			}
+			n++
+			seq++
+			ok2, got := false, exprStr(arg)
+			if k, isC := constInt(info, arg); isC && k <= 1 {
+				ok2 = true
+			}
+			switch x := arg.(type) {
+			case *ast.BinaryExpr:
+				if x.Op == token.ADD {
+					for _, pr := range [][2]ast.Expr{{x.X, x.Y}, {x.Y, x.X}} {
+						if sel, isSel := ast.Unparen(pr[0]).(*ast.SelectorExpr); isSel && sel.Sel.Name == "Column" {
+							if k, isC := constInt(info, pr[1]); isC && k <= 1 {
+								ok2 = true
+							}
+						}
+					}
+				}
+			case *ast.SelectorExpr:
+				ok2 = x.Sel.Name == "Column"
+			}
+			c.Check(ok2, R, shortFuncName(name)+":continuation lines are read from at most one column past the key#"+itoa(seq), call.Pos(), got,
+				"the position look-up of this value starts reading continuation lines at `"+got+"`: a line indented by the minimum YAML allows (one column deeper than the key) loses its first character, the look-up continues in the lines below, and the problem is reported with the line range and carets of other rules")
+			return true
+		})
+	}
+	c.Check(n >= 6, R, "position constructors with a minimum column enumerated", token.NoPos, itoa(n), "fewer than 6 calls")
 }
